@@ -9,13 +9,19 @@
 // every received value. The verdict is computed offline from the two logs after both
 // goroutines were joined (see check()).
 //
-// Non-blocking is decided structurally: while the consumer is by construction not receiving
-// (not started yet / paused, and the signal that would start it not yet fired), the writer
-// goroutine must get through its ops. If a watchdog stage (0.5 s, 2 s, 10 s) finds it unfinished,
-// a runtime.Stack(all) snapshot is taken: writer goroutine (looked up by its goroutine id)
-// parked in `chan send` with a frame ioutil.(*ProgressWriter).sum, consumer state and writer
-// progress identical before and after the snapshot => violation (nothing can ever wake it).
-// Anything else after the last stage => inconclusive. The watchdog only decides *when to look*.
+// Non-blocking is decided structurally, never from time: if a watchdog stage (0.5 s, 2 s, 10 s,
+// then every 10 s while the writer still advances) finds the writer goroutine unfinished, two
+// consecutive runtime.Stack(all) snapshots are taken. Violation iff both show the same at-rest
+// state: the writer goroutine (looked up by its goroutine id) parked in a channel operation /
+// select / lock whose innermost non-runtime frame is ioutil.(*ProgressWriter).sum, .Write or
+// .WriteString, while the consumer is not started, paused (its start signal can only be fired
+// by the writer) or itself parked receiving on the status channel; writer progress and consumer
+// state identical before/after each snapshot. Nothing else touches the channel and no timer is
+// armed, so nothing can ever wake the writer. Anything else after the last stage =>
+// inconclusive. The watchdog only decides *when to look*.
+//
+// "Long" scenarios (tens of thousands of 1..16 byte writes next to an eager consumer on >= 2 Ps)
+// exist to hit narrow writer/consumer windows; they are stored compactly (LongN, LongSeed).
 //
 // See DESIGN.md §3 C19.
 package main
@@ -88,6 +94,33 @@ type Case struct {
 	Ops   []Op     `json:"ops"`
 	Cons  Consumer `json:"consumer"`
 	Procs int      `json:"procs,omitempty"` // GOMAXPROCS the case was observed under (replay hint)
+	// Long scenario: Ops is empty and stands for LongN writes of 1..16 bytes derived from LongSeed.
+	LongN    int   `json:"long_n,omitempty"`
+	LongSeed int64 `json:"long_seed,omitempty"`
+}
+
+// expand returns the case with the op list of a long scenario materialised.
+func (cs Case) expand() Case {
+	if cs.LongN <= 0 || len(cs.Ops) > 0 {
+		return cs
+	}
+	if cs.LongN > 1000000 {
+		cs.LongN = 1000000
+	}
+	x := uint64(cs.LongSeed)*2862933555777941757 + 3037000493
+	cs.Ops = make([]Op, cs.LongN)
+	for i := range cs.Ops {
+		x = x*6364136223846793005 + 1442695040888963407
+		cs.Ops[i] = Op{Size: 1 + int(x>>60), Str: (x>>40)&1 == 1}
+	}
+	return cs
+}
+
+func (cs Case) nops() int {
+	if len(cs.Ops) == 0 && cs.LongN > 0 {
+		return cs.LongN
+	}
+	return len(cs.Ops)
 }
 
 func (o Op) method() string {
@@ -189,7 +222,9 @@ type scen struct {
 	ch chan int
 	sk *sink
 
-	lazyCh atomic.Value // chan int obtained by a lazy consumer (read by release())
+	long      bool
+	stuckRecv bool         // the writer was found parked in a receive/select/lock inside a write
+	lazyCh    atomic.Value // chan int obtained by a lazy consumer (read by release())
 
 	startSig, pauseSig, resumeSig chan struct{}
 	writerDone, consumerDone      chan struct{}
@@ -409,14 +444,119 @@ func (s *scen) noConsumer() (string, bool) {
 	return "", false
 }
 
-// awaitWriter waits for the writer goroutine (op list + Close).
+// parked reports whether a goroutine wait state of a dump is a parked state that only another
+// goroutine can end (channel operation, select, lock) - not running/runnable/sleep/syscall/IO wait.
+func parked(state string) bool {
+	for _, p := range []string{"chan send", "chan receive", "select", "semacquire", "sync."} {
+		if strings.HasPrefix(state, p) {
+			return true
+		}
+	}
+	return false
+}
+
+// site returns the innermost non-runtime function of a goroutine block and the block without
+// its header line (the header carries a wait duration that may change between two snapshots).
+func site(block string) (fn, frames string) {
+	if i := strings.IndexByte(block, '\n'); i >= 0 {
+		frames = block[i+1:]
+	}
+	for _, ln := range strings.Split(frames, "\n") {
+		if ln == "" || ln[0] == '\t' {
+			continue
+		}
+		if strings.HasPrefix(ln, "runtime.") || strings.HasPrefix(ln, "sync.") || strings.HasPrefix(ln, "internal/") || strings.HasPrefix(ln, "sync/atomic.") {
+			continue
+		}
+		if i := strings.LastIndexByte(ln, '('); i > 0 {
+			ln = ln[:i]
+		}
+		return ln, frames
+	}
+	return "", frames
+}
+
+const pwPrefix = "github.com/whoisnian/glb/util/ioutil.(*ProgressWriter)."
+
+// rest is one structural observation of the scenario's two goroutines.
+type rest struct {
+	ok       bool   // writer parked inside sum/Write/WriteString and the consumer cannot help: at rest
+	sig      string // everything that has to be identical in two consecutive observations
+	frame    string // sum | Write | WriteString
+	wstate   string
+	why      string // absent | paused | parked-receiving
+	progress int64
+	wblock   string
+	cblock   string
+}
+
+// observe takes one stop-the-world snapshot and decides whether the scenario is at rest with
+// the writer goroutine parked inside a ProgressWriter write: the writer is parked in a channel
+// operation / select / lock whose innermost non-runtime frame is (*ProgressWriter).sum, .Write
+// or .WriteString, and the consumer is not started, paused (the signal that would start it can
+// only be fired by the writer) or itself parked receiving on the status channel. Nothing else
+// touches the channel and no timer is armed, so no transition can ever happen.
+func (s *scen) observe() (r rest, wstate, wblock string) {
+	why1, no1 := s.noConsumer()
+	c1, p1 := s.cstate.Load(), s.progress.Load()
+	dump := snapshot()
+	why2, no2 := s.noConsumer()
+	c2, p2 := s.cstate.Load(), s.progress.Load()
+	state, block, ok := findG(dump, s.wgid.Load())
+	if !ok {
+		return r, "", ""
+	}
+	wstate, wblock = state, block
+	if c1 != c2 || p1 != p2 || no1 != no2 || why1 != why2 || int(p1) >= len(s.cs.Ops) || !parked(state) {
+		return
+	}
+	fn, wframes := site(block)
+	if !strings.HasPrefix(fn, pwPrefix) {
+		return
+	}
+	frame := strings.TrimPrefix(fn, pwPrefix)
+	if frame != "sum" && frame != "Write" && frame != "WriteString" {
+		return // Close blocks by design
+	}
+	why, cframes := why1, ""
+	if !no1 {
+		if c1 != csRecv {
+			return
+		}
+		cstate, cblock, cok := findG(dump, s.cgid.Load())
+		if !cok || !(strings.HasPrefix(cstate, "chan receive") || strings.HasPrefix(cstate, "select")) {
+			return
+		}
+		var cfn string
+		cfn, cframes = site(cblock)
+		if cfn != "main.consumerLoop" {
+			return
+		}
+		why = "parked-receiving"
+		r.cblock = cblock
+	}
+	if i := strings.IndexByte(state, ','); i >= 0 {
+		state = state[:i]
+	}
+	r.ok, r.frame, r.wstate, r.why, r.progress, r.wblock = true, frame, state, why, p1, block
+	r.sig = fmt.Sprintf("%s|%s|%s|%d|%d\n%s\n--\n%s", frame, state, why, p1, c1, wframes, cframes)
+	return
+}
+
+// awaitWriter waits for the writer goroutine (op list + Close). The timer only decides when to
+// look; the verdict comes from two identical consecutive observations of an at-rest state.
 func (s *scen) awaitWriter(st *stats) (res result, joined bool) {
 	t := time.NewTimer(stages[0])
 	defer t.Stop()
 	var lastState, lastBlock string
-	for i := range stages {
+	lastProgress := int64(-1)
+	for i, extra := 0, 0; i < len(stages)+extra; i++ {
 		if i > 0 {
-			t.Reset(stages[i])
+			d := stages[len(stages)-1]
+			if i < len(stages) {
+				d = stages[i]
+			}
+			t.Reset(d)
 		}
 		select {
 		case <-s.writerDone:
@@ -424,27 +564,34 @@ func (s *scen) awaitWriter(st *stats) (res result, joined bool) {
 		case <-t.C:
 		}
 		st.snapshots++
-		why1, no1 := s.noConsumer()
-		p1 := s.progress.Load()
-		dump := snapshot()
-		why2, no2 := s.noConsumer()
-		p2 := s.progress.Load()
-		state, block, ok := findG(dump, s.wgid.Load())
-		lastState, lastBlock = state, block
-		if !ok {
-			continue
+		a, wstate, wblock := s.observe()
+		lastState, lastBlock = wstate, wblock
+		if a.ok {
+			runtime.Gosched()
+			st.snapshots++
+			b, _, _ := s.observe()
+			if b.ok && a.sig == b.sig {
+				op := s.cs.Ops[a.progress]
+				obs := fmt.Sprintf("two identical consecutive snapshots: writer goroutine parked in [%s] inside (*ProgressWriter).%s at op %d of %d, consumer %s; nobody can ever wake it:\n%s",
+					a.wstate, a.frame, a.progress, len(s.cs.Ops), a.why, clipStr(a.wblock, 1500))
+				s.stuckRecv = !strings.HasPrefix(a.wstate, "chan send")
+				if a.cblock != "" {
+					obs += "\nconsumer:\n" + clipStr(a.cblock, 800)
+				}
+				return result{
+					key: fmt.Sprintf("blocked-in-%s:%s:consumer-%s", a.frame, op.method(), a.why),
+					exp: fmt.Sprintf("op %d %s(%d bytes) returns whatever the consumer does (consumer %s)", a.progress, op.method(), op.Size, a.why),
+					obs: obs,
+				}, false
+			}
 		}
-		if strings.HasPrefix(state, "chan send") && strings.Contains(block, "ioutil.(*ProgressWriter).sum(") &&
-			no1 && no2 && why1 == why2 && p1 == p2 && int(p1) < len(s.cs.Ops) {
-			op := s.cs.Ops[p1]
-			return result{
-				key: fmt.Sprintf("blocked-in-sum:%s:consumer-%s", op.method(), why1),
-				exp: fmt.Sprintf("op %d %s(%d bytes) returns although nobody is receiving (consumer %s)", p1, op.method(), op.Size, why1),
-				obs: "writer goroutine parked in [" + state + "] under (*ProgressWriter).sum with no receiver and no pending signal:\n" + clipStr(block, 1500),
-			}, false
+		// a writer that still advances is slow (loaded machine, long scenario), not stuck: keep waiting
+		if p := s.progress.Load(); i == len(stages)+extra-1 && p != lastProgress && extra < 12 {
+			extra++
 		}
+		lastProgress = s.progress.Load()
 	}
-	return result{inconclusive: fmt.Sprintf("writer goroutine unfinished after 10 s at op %d/%d, state [%s], consumer %s, not classifiable as blocked in sum: %s",
+	return result{inconclusive: fmt.Sprintf("writer goroutine unfinished after the last watchdog stage at op %d/%d, state [%s], consumer %s, not classifiable as at rest inside a write: %s",
 		s.progress.Load(), len(s.cs.Ops), lastState, csNames[s.cstate.Load()], clipStr(lastBlock, 600))}, false
 }
 
@@ -489,6 +636,9 @@ func (s *scen) awaitConsumer(st *stats) (res result, joined bool) {
 // release lets whatever is still parked run to its end (best effort; goroutines of a refuted
 // scenario may leak otherwise).
 func (s *scen) release() {
+	if s.stuckRecv {
+		return // the refuted writer waits for a value nobody sends; draining cannot help it
+	}
 	if s.ch == nil {
 		if v, ok := s.lazyCh.Load().(chan int); ok {
 			s.ch = v
@@ -512,7 +662,7 @@ func (s *scen) release() {
 			}
 		}
 	}()
-	t := time.NewTimer(3 * time.Second)
+	t := time.NewTimer(2 * time.Second)
 	defer t.Stop()
 	select {
 	case <-s.writerDone:
@@ -553,6 +703,7 @@ type stats struct {
 	snapshots, retries, passthroughMismatch int64
 	maxRecv, maxOps                         int64
 	strOpsSW, strOpsPlain                   int64
+	scenLong, longOps, longInter            int64
 	patterns                                map[uint64]struct{}
 }
 
@@ -586,12 +737,14 @@ func fmtRecv(r []int) string {
 
 // runOnce executes one scenario.
 func runOnce(cs Case, st *stats) (res result) {
+	long := cs.LongN > 0 && len(cs.Ops) == 0
+	cs = cs.expand()
 	for i := range cs.Ops {
 		if cs.Ops[i].Size < 0 || cs.Ops[i].Size > maxSize || cs.Ops[i].Beh < 0 || cs.Ops[i].Beh > behFailN {
 			return result{inconclusive: fmt.Sprintf("malformed case: op %d out of range", i)}
 		}
 	}
-	s := &scen{cs: cs, sk: &sink{}}
+	s := &scen{cs: cs, sk: &sink{}, long: long}
 	s.startSig, s.pauseSig, s.resumeSig = make(chan struct{}), make(chan struct{}), make(chan struct{})
 	s.writerDone, s.consumerDone = make(chan struct{}), make(chan struct{})
 	s.logs = make([]opLog, 0, len(cs.Ops))
@@ -756,7 +909,11 @@ func (s *scen) check(st *stats) result {
 	if nops > st.maxOps {
 		st.maxOps = nops
 	}
-	if len(st.patterns) < 200000 {
+	if s.long {
+		st.scenLong++
+		st.longOps += nops
+		st.longInter += inter
+	} else if len(st.patterns) < 200000 {
 		// which sends were taken: consumer kind + indices of the wrapped calls whose sums arrived
 		var sb strings.Builder
 		sb.WriteString(cs.Cons.Kind)
@@ -803,9 +960,10 @@ func (mon) Assumptions(string) []string {
 }
 
 type shardArgs struct {
-	Part    int `json:"part"`
-	Count   int `json:"count"`
-	Workers int `json:"workers"`
+	Part    int  `json:"part"`
+	Count   int  `json:"count"`
+	Workers int  `json:"workers"`
+	Long    bool `json:"long,omitempty"` // long scenarios: 20000..100000 tiny writes, eager consumer
 }
 
 var procsCycle = []int{1, 2, 4, 16}
@@ -826,6 +984,26 @@ func (mon) Plan(prop, tier string, seed int64) []drv.Shard {
 		out = append(out, drv.Shard{Name: fmt.Sprintf("plain-%d-p%d-w%d", p, procs, workers), Args: a, Secs: secs,
 			Env: []string{fmt.Sprintf("GOMAXPROCS=%d", procs)}})
 	}
+	// long scenarios: GOMAXPROCS >= 2, alone and under 4 concurrent workers
+	longShards, longPer := 4, 6
+	if tier == "thorough" {
+		longShards, longPer = 8, 48
+	}
+	for p := 0; p < longShards; p++ {
+		procs := []int{2, 4, 16, 4, 2, 16, 4, 2}[p%8]
+		workers := []int{1, 1, 1, 4, 4, 4, 1, 1}[p%8]
+		n := longPer
+		if workers > 1 {
+			n = longPer * 2
+		}
+		a, _ := json.Marshal(shardArgs{Part: 2000 + p, Count: n, Workers: workers, Long: true})
+		out = append(out, drv.Shard{Name: fmt.Sprintf("long-%d-p%d-w%d", p, procs, workers), Args: a, Secs: secs,
+			Env: []string{fmt.Sprintf("GOMAXPROCS=%d", procs)}})
+	}
+	{
+		a, _ := json.Marshal(shardArgs{Part: 3000, Count: longPer / 2, Workers: 1, Long: true})
+		out = append(out, drv.Shard{Name: "long-race-p4-w1", Args: a, Secs: secs, Race: true, Env: []string{"GOMAXPROCS=4"}})
+	}
 	for p := 0; p < racen; p++ {
 		procs := []int{4, 2, 16, 1}[p%4]
 		workers := 1 + 3*(p/4%2)
@@ -842,6 +1020,9 @@ func shapeKey(cs Case) string {
 	for _, o := range cs.Ops {
 		fmt.Fprintf(&sb, "%v.%d.%d;", o.Str, o.Size, o.Beh)
 	}
+	if cs.LongN > 0 {
+		fmt.Fprintf(&sb, "long:%d:%d", cs.LongN, cs.LongSeed)
+	}
 	return sb.String()
 }
 
@@ -855,7 +1036,7 @@ func nontrivial(cs Case) bool {
 }
 
 func caseID(cs Case) string {
-	return fmt.Sprintf("%s/%s ops=%d consumer=%s start=%d pause=%d resume=%d", cs.WKind, swName(cs.SW), len(cs.Ops), cs.Cons.Kind, cs.Cons.StartAt, cs.Cons.PauseAt, cs.Cons.ResumeAt)
+	return fmt.Sprintf("%s/%s ops=%d consumer=%s start=%d pause=%d resume=%d", cs.WKind, swName(cs.SW), cs.nops(), cs.Cons.Kind, cs.Cons.StartAt, cs.Cons.PauseAt, cs.Cons.ResumeAt)
 }
 
 func (mn mon) Run(sh drv.Shard, c *drv.Ctx) {
@@ -880,12 +1061,17 @@ func (mn mon) Run(sh drv.Shard, c *drv.Ctx) {
 			defer wg.Done()
 			r := newRand(sh.Seed, a.Part, w)
 			for i := 0; i < n && !stop.Load(); i++ {
-				cs := genCase(r)
+				var cs Case
+				if a.Long {
+					cs = genLong(r)
+				} else {
+					cs = genCase(r)
+				}
 				cs.Procs = procs
 				c.Progress(caseID(cs), false)
 				k, e, o, inc := runCase(cs, st)
 				c.Eval(1)
-				if nontrivial(cs) {
+				if cs.LongN > 0 || nontrivial(cs) {
 					c.DistinctStr(shapeKey(cs))
 				}
 				c.SetAdd("pairs(writer kind × consumer kind)", cs.WKind+"/"+swName(cs.SW)+" × "+cs.Cons.Kind)
@@ -901,7 +1087,7 @@ func (mn mon) Run(sh drv.Shard, c *drv.Ctx) {
 					}
 				}
 				if i%97 == 3 && c.NumSamples() < 3 {
-					c.Sample(map[string]any{"writer": cs.WKind + "/" + swName(cs.SW), "ops": len(cs.Ops), "consumer": cs.Cons, "gomaxprocs": procs})
+					c.Sample(map[string]any{"writer": cs.WKind + "/" + swName(cs.SW), "ops": cs.nops(), "consumer": cs.Cons, "gomaxprocs": procs})
 				}
 			}
 		}(w, n)
@@ -919,6 +1105,9 @@ func (mn mon) Run(sh drv.Shard, c *drv.Ctx) {
 			c.Add("wrapped_calls_"+behNames[b], n)
 		}
 		c.Add("bytes_reported", st.bytesReported)
+		c.Add("scen_long", st.scenLong)
+		c.Add("long_ops", st.longOps)
+		c.Add("long_intermediate_values_received", st.longInter)
 		c.Add("size_checks", st.sizeChecks)
 		c.Add("values_received", st.received)
 		c.Add("intermediate_values_received", st.intermediate)
@@ -967,7 +1156,7 @@ func (mon) Finish(prop, tier string, m *drv.Merged) (inc []string) {
 	}
 	for _, k := range []string{"sends_skipped(no receiver ready)", "scen_whole_op_list_without_consumer", "scen_absent",
 		"wrapped_calls_shortErr", "wrapped_calls_shortNil", "wrapped_calls_fail0", "wrapped_calls_failN", "ops_WriteString_on_StringWriter", "ops_WriteString_on_plain_Writer",
-		"scen_stopresume_received_before_and_after"} {
+		"scen_stopresume_received_before_and_after", "scen_long", "long_intermediate_values_received"} {
 		if m.Sum[k] == 0 {
 			inc = append(inc, "observed nothing of: "+k)
 		}
@@ -977,7 +1166,7 @@ func (mon) Finish(prop, tier string, m *drv.Merged) (inc []string) {
 
 func (mn mon) Replay(v drv.Violation, c *drv.Ctx) {
 	var cs Case
-	if err := json.Unmarshal(v.Case, &cs); err != nil || (len(cs.Ops) == 0 && cs.Cons.Kind == "") {
+	if err := json.Unmarshal(v.Case, &cs); err != nil || (len(cs.Ops) == 0 && cs.LongN == 0 && cs.Cons.Kind == "") {
 		c.Inconclusive("replay: not a scenario (race / crash violations are replayed by re-running the check with the same seed)")
 		return
 	}
@@ -986,7 +1175,11 @@ func (mn mon) Replay(v drv.Violation, c *drv.Ctx) {
 	}
 	st := newStats()
 	// schedule dependent: repeat
-	for i := 0; i < 300; i++ {
+	reps := 300
+	if cs.LongN > 0 {
+		reps = 40
+	}
+	for i := 0; i < reps; i++ {
 		k, e, o, inc := runCase(cs, st)
 		c.Eval(1)
 		if inc != "" {
